@@ -49,6 +49,9 @@ const (
 type Fault struct {
 	Kind FaultKind
 	N    int
+	// Trunc: the outage that makes this write fail also makes the next Truncate fail (the roll-back
+	// a writer attempts after a partial write goes to the same device).
+	Trunc bool
 }
 
 // Disk is one simulated file's durable content.
@@ -66,7 +69,10 @@ type Disk struct {
 	ReadCalls  int
 	TruncCalls int
 	FaultsHit  int
-	NoLog      bool // do not record mutations (used for materialised crash images whose log is not needed)
+	// TruncFaultsHit counts Truncate calls failed by a Fault with Trunc set.
+	TruncFaultsHit int
+	failTrunc      bool
+	NoLog          bool // do not record mutations (used for materialised crash images whose log is not needed)
 	// EOFAtEnd makes a ReadAt that is satisfied in full and ends exactly at the end of the file
 	// return io.EOF with the data, which io.ReaderAt allows (an *os.File does not do it; the
 	// caller-supplied ReaderAt of the storage package may).
@@ -183,6 +189,9 @@ func (d *Disk) WriteAt(p []byte, off int64) (int, error) {
 	}
 	if f, ok := d.Faults[idx]; ok {
 		d.FaultsHit++
+		if f.Trunc {
+			d.failTrunc = true
+		}
 		switch f.Kind {
 		case FaultFail:
 			return 0, ErrInjected
@@ -214,6 +223,11 @@ func (d *Disk) Truncate(size int64) error {
 	d.TruncCalls++
 	if size < 0 {
 		return fmt.Errorf("sim: negative truncate")
+	}
+	if d.failTrunc {
+		d.failTrunc = false
+		d.TruncFaultsHit++
+		return ErrInjected
 	}
 	if !d.NoLog {
 		d.Log = append(d.Log, Mutation{Kind: MutTruncate, Off: size, Op: d.CurOp})
